@@ -1,13 +1,1428 @@
-//! C03 — not yet implemented
-use crate::core::{Ctx, Outcome};
-use serde_json::Value;
+//! C03 — Order requests: sent => delivered once and in flight; refused/failed => neither.
+//!
+//! E-BFS (depth bounded, states de-duplicated on a canonical form of the real `EngineState`) where
+//! every transition is one call of the real `Engine::process` (or, for `Act::ev == None`, one direct
+//! call of the real `generate_algo_orders()` whose return value - unlike the audit - is never
+//! truncated). The engine is closed with the scripted seams of `common.rs`:
+//!
+//! * the *strategy output* (cancels/opens), the *risk verdict* and the *fault mode of every execution
+//!   link* are ENVIRONMENT: they are part of the action, chosen afresh before each event, so "all
+//!   strategy/risk outputs x link fault patterns" is a choice dimension of the search (a link may be
+//!   healthy at one step and gone at the next = fault sequences);
+//! * `ScriptTx` records every delivery per exchange link.
+//!
+//! Alphabet (see `M::actions`): market trade, account fill, order snapshot (open / cancelled) of a
+//! tracked id, `TradingStateUpdate(Enabled|Disabled)`, the four commands (`SendOpenRequests`,
+//! `SendCancelRequests`, `ClosePositions(filter)`, `CancelOrders(filter)`), `Shutdown`;
+//! strategy menu: nothing / one open per exchange / open to an exchange index out of range / open whose
+//! exchange differs from the instrument's home exchange / two opens on two exchanges / cancel of a
+//! tracked id / cancel of an untracked id / open + cancel; risk menu: approve / refuse opens / refuse
+//! cancels / refuse all; link modes per addressed exchange: healthy / closed (unrecoverable) / `None`
+//! entry / unhealthy (recoverable).
+//!
+//! Oracle = the statement, rule by rule (signatures `C03/<rule>/...`):
+//!  R1 `sent-delivered-once`   every request reported `sent` (command output or algo output in the audit, or
+//!                             the direct return value) is in the log of the link of `request.key.exchange`
+//!                             exactly once and in no other link's log;
+//!  R2 `sent-then-in-flight`   a sent open is `OpenInFlight`, a sent cancel of a tracked order is
+//!                             `CancelInFlight` after the tick;
+//!  R3 `failed-*`              a request reported failed carries an error that is unrecoverable iff the link
+//!                             is closed / absent / out of range, was delivered nowhere, left no mark, and a
+//!                             fatal failure makes the tick terminal (audit carries errors);
+//!  R4 `refused-*`             a request the risk manager refused is reported refused, delivered nowhere, no mark;
+//!  R5 `disabled-*`            while Disabled (and not on the enabling event) nothing the strategy proposed is
+//!                             delivered, marked or reported; commands are still actioned
+//!                             (`command-actioned`); market/account events update the state exactly as they
+//!                             do when enabled (`disabled-state-still-updates`, differential);
+//!  R6 `enabled-generates`     on `TradingStateUpdate(Enabled)` (that very event) and on every market /
+//!                             account / trading event processed while enabled the strategy's approved
+//!                             requests are issued (healthy link => delivered once, in flight, reported).
+//!  R7 `frame`                 an order addressed by nothing in the tick (event, proposal, command, report,
+//!                             delivery) is unchanged ("... and no other order changed" of the design).
+//! Signatures name rule + abstract cause only; requests already flagged by the report-driven rules
+//! R1-R4 are skipped by the input-driven rules R5/R6 so that one defect yields one or two signatures.
+//! Not demanded (statement silent, all behaviours accepted): whether generation runs after a command,
+//! after `Shutdown`, on the event that disables trading; whether the audit still carries the algo
+//! output next to a fatal algo error (counted as `audit_dropped_algo_output`).
 
-pub fn run(_ctx: &Ctx) -> Outcome {
-    eprintln!("MACHINERY: C03 not implemented");
-    std::process::exit(2)
+use super::common::*;
+use crate::core::{Ctx, Outcome};
+use crate::explore::bfs::{self, Model, Viol};
+use barter::{
+    EngineEvent,
+    engine::{
+        Engine, EngineOutput, Processor,
+        action::{
+            ActionOutput,
+            generate_algo_orders::{GenerateAlgoOrders, GenerateAlgoOrdersOutput},
+            send_requests::SendRequestsOutput,
+        },
+        audit::EngineAudit,
+        command::Command,
+        error::EngineError,
+        execution_tx::MultiExchangeTxMap,
+        state::{
+            EngineState,
+            global::DefaultGlobalData,
+            instrument::{
+                data::{DefaultInstrumentMarketData, InstrumentDataState},
+                filter::InstrumentFilter,
+            },
+            trading::TradingState,
+        },
+    },
+    execution::{AccountStreamEvent, request::ExecutionRequest},
+    shutdown::Shutdown,
+};
+use barter_data::{
+    event::{DataKind, MarketEvent},
+    streams::consumer::MarketStreamEvent,
+    subscription::trade::PublicTrade,
+};
+use barter_execution::{
+    AccountEvent, AccountEventKind,
+    order::{
+        Order, OrderKey, OrderKind, TimeInForce,
+        id::{ClientOrderId, OrderId},
+        request::{OrderRequestCancel, OrderRequestOpen, RequestCancel, RequestOpen},
+        state::{ActiveOrderState, Cancelled, Open, OrderState},
+    },
+    trade::{AssetFees, Trade, TradeId},
+};
+use barter_instrument::{
+    Side,
+    exchange::{ExchangeId, ExchangeIndex},
+    index::IndexedInstruments,
+    instrument::InstrumentIndex,
+};
+use barter_integration::{collection::one_or_many::OneOrMany, snapshot::Snapshot};
+use rust_decimal::Decimal;
+use serde::{Deserialize, Serialize};
+use serde_json::{Value, json};
+use std::{
+    collections::BTreeSet,
+    hash::{Hash, Hasher},
+    panic::{AssertUnwindSafe, catch_unwind},
+    sync::{
+        Arc,
+        atomic::{AtomicU64, Ordering},
+    },
+};
+
+/// Build a real engine around an existing (cloned) engine state with fresh scripted seams.
+/// (`Engine` is not `Clone` because `MultiExchangeTxMap` is not, so the explorers keep the
+/// `EngineState` and re-close it per step; `links[i] == None` = tracked exchange without link.)
+pub fn mk_engine(
+    instruments: &IndexedInstruments,
+    state: EState,
+    links: &[Option<TxMode>],
+    strategy: ScriptStrategy,
+    risk: ScriptRisk,
+) -> (SEngine, Vec<Option<ScriptTx>>) {
+    let txs: Vec<(ExchangeId, Option<ScriptTx>)> = instruments
+        .exchanges()
+        .iter()
+        .enumerate()
+        .map(|(i, ex)| {
+            let mode = links.get(i).copied().unwrap_or(Some(TxMode::Healthy));
+            (ex.value, mode.map(ScriptTx::new))
+        })
+        .collect();
+    let map = MultiExchangeTxMap::from_iter(txs.iter().map(|(e, t)| (*e, t.clone())));
+    let engine = Engine::new(ScriptClock::default(), state, map, strategy, risk);
+    (engine, txs.into_iter().map(|(_, t)| t).collect())
 }
 
-pub fn replay(_ctx: &Ctx, _case: &Value) {
-    eprintln!("MACHINERY: C03 not implemented");
-    std::process::exit(2)
+pub fn fresh_state(instruments: &IndexedInstruments, trading: TradingState) -> EState {
+    EngineState::builder(instruments, DefaultGlobalData, DefaultInstrumentMarketData::default)
+        .time_engine_start(t0())
+        .trading_state(trading)
+        .build()
+}
+
+// ------------------------------------------------------------------------------------------------
+// Alphabet
+// ------------------------------------------------------------------------------------------------
+
+/// open request: exchange index (possibly out of range), instrument index, client order id
+#[derive(Debug, Clone, PartialEq, Eq, Hash, Serialize, Deserialize)]
+pub struct RO {
+    ex: usize,
+    ins: usize,
+    cid: String,
+}
+/// cancel request (also used to name a tracked order in snapshots)
+#[derive(Debug, Clone, PartialEq, Eq, Hash, Serialize, Deserialize)]
+pub struct RC {
+    ex: usize,
+    ins: usize,
+    cid: String,
+    id: Option<String>,
+}
+#[derive(Debug, Clone, PartialEq, Eq, Hash, Serialize, Deserialize)]
+pub enum Filt {
+    All,
+    Ex(usize),
+    Ins(usize),
+}
+#[derive(Debug, Clone, PartialEq, Eq, Hash, Serialize, Deserialize)]
+pub enum Ev {
+    Market(usize),
+    Fill(usize),
+    SnapOpen(RC),
+    SnapCancelled(RC),
+    Trading(bool),
+    CmdOpen(Vec<RO>),
+    CmdCancel(Vec<RC>),
+    CmdClose(Filt),
+    CmdCancelOrders(Filt),
+    Shutdown,
+}
+#[derive(Debug, Clone, PartialEq, Eq, Hash, Serialize, Deserialize)]
+pub struct Act {
+    /// `None` = direct call of `generate_algo_orders()` on the state (no successor)
+    ev: Option<Ev>,
+    /// strategy output for this tick
+    opens: Vec<RO>,
+    cancels: Vec<RC>,
+    refuse_opens: bool,
+    refuse_cancels: bool,
+    /// fault mode of every exchange link for this tick
+    links: Vec<Option<TxMode>>,
+}
+
+fn open_req(r: &RO) -> OrderRequestOpen<ExchangeIndex, InstrumentIndex> {
+    OrderRequestOpen {
+        key: OrderKey {
+            exchange: ExchangeIndex(r.ex),
+            instrument: InstrumentIndex(r.ins),
+            strategy: strategy_id(),
+            cid: ClientOrderId::new(r.cid.as_str()),
+        },
+        state: RequestOpen {
+            side: Side::Buy,
+            price: Decimal::from(100),
+            quantity: Decimal::ONE,
+            kind: OrderKind::Limit,
+            time_in_force: TimeInForce::GoodUntilCancelled { post_only: false },
+        },
+    }
+}
+fn cancel_req(r: &RC) -> OrderRequestCancel<ExchangeIndex, InstrumentIndex> {
+    OrderRequestCancel {
+        key: OrderKey {
+            exchange: ExchangeIndex(r.ex),
+            instrument: InstrumentIndex(r.ins),
+            strategy: strategy_id(),
+            cid: ClientOrderId::new(r.cid.as_str()),
+        },
+        state: RequestCancel { id: r.id.as_ref().map(OrderId::new) },
+    }
+}
+
+/// (is_open, exchange index, instrument index, cid) of an execution request
+fn parts(r: &ExecutionRequest) -> (bool, usize, usize, String) {
+    match r {
+        ExecutionRequest::Open(o) => (true, o.key.exchange.index(), o.key.instrument.index(), o.key.cid.0.to_string()),
+        ExecutionRequest::Cancel(c) => (false, c.key.exchange.index(), c.key.instrument.index(), c.key.cid.0.to_string()),
+        ExecutionRequest::Shutdown => (false, usize::MAX, usize::MAX, String::new()),
+    }
+}
+
+// ------------------------------------------------------------------------------------------------
+// State = the real EngineState + canonical key
+// ------------------------------------------------------------------------------------------------
+
+#[derive(Clone)]
+pub struct St {
+    key: Arc<String>,
+    es: Arc<EState>,
+}
+impl PartialEq for St {
+    fn eq(&self, o: &Self) -> bool {
+        self.key == o.key
+    }
+}
+impl Eq for St {}
+impl Hash for St {
+    fn hash<H: Hasher>(&self, h: &mut H) {
+        self.key.hash(h)
+    }
+}
+
+type AOrder = Order<ExchangeIndex, InstrumentIndex, ActiveOrderState>;
+
+/// all tracked orders as (instrument index, cid, order), sorted
+fn tracked(es: &EState) -> Vec<(usize, String, AOrder)> {
+    let mut v: Vec<(usize, String, AOrder)> = Vec::new();
+    for (i, st) in es.instruments.0.values().enumerate() {
+        for (cid, o) in st.orders.0.iter() {
+            v.push((i, cid.0.to_string(), o.clone()));
+        }
+    }
+    v.sort_by(|a, b| (a.0, &a.1).cmp(&(b.0, &b.1)));
+    v
+}
+fn order_of<'a>(es: &'a EState, ins: usize, cid: &str) -> Option<&'a AOrder> {
+    es.instruments.0.get_index(ins).and_then(|(_, st)| st.orders.0.get(&ClientOrderId::new(cid)))
+}
+
+/// canonical form: hash-map content sorted; assets and tear sheets never change under this alphabet
+/// (no balance events, no position exits) and are left out.
+fn canon(es: &EState) -> String {
+    use std::fmt::Write;
+    let mut s = String::with_capacity(512);
+    let _ = write!(s, "{:?}|{:?}|", es.trading, es.connectivity);
+    for st in es.instruments.0.values() {
+        let mut os: Vec<&AOrder> = st.orders.0.values().collect();
+        os.sort_by(|a, b| a.key.cid.cmp(&b.key.cid));
+        let _ = write!(s, "{:?}#{:?}#{:?};", os, st.position.current, st.data);
+    }
+    s
+}
+fn st_of(es: EState) -> St {
+    St { key: Arc::new(canon(&es)), es: Arc::new(es) }
+}
+
+// ------------------------------------------------------------------------------------------------
+// Model
+// ------------------------------------------------------------------------------------------------
+
+const POOL: [&str; 8] = ["o1", "o2", "o3", "o4", "o5", "o6", "o7", "o8"];
+const MODES: [Option<TxMode>; 4] =
+    [Some(TxMode::Healthy), Some(TxMode::Closed), None, Some(TxMode::Unhealthy)];
+
+#[derive(Default)]
+pub struct Cov {
+    process_calls: AtomicU64,
+    direct_calls: AtomicU64,
+    requests_sent: AtomicU64,
+    requests_failed_fatal: AtomicU64,
+    requests_failed_recoverable: AtomicU64,
+    requests_refused: AtomicU64,
+    terminal_ticks: AtomicU64,
+    audit_dropped_algo_output: AtomicU64,
+    disabled_ticks_with_strategy_proposal: AtomicU64,
+    disabled_state_updates_checked: AtomicU64,
+    disabled_state_updates_changed_state: AtomicU64,
+    enabling_event_generations: AtomicU64,
+    commands_while_disabled: AtomicU64,
+    oracle_evaluations: AtomicU64,
+}
+fn bump(a: &AtomicU64) {
+    a.fetch_add(1, Ordering::Relaxed);
+}
+fn addn(a: &AtomicU64, n: usize) {
+    a.fetch_add(n as u64, Ordering::Relaxed);
+}
+
+pub struct M {
+    n_ex: usize,
+    instruments: IndexedInstruments,
+    /// instrument used for "an open on exchange e" (index != exchange index for every e)
+    home: Vec<usize>,
+    /// instruments that may get a position (fills)
+    fill_ins: Vec<usize>,
+    /// bound on simultaneously tracked pool orders (keeps the reachable set finite)
+    max_tracked: usize,
+    pub cov: Cov,
+}
+
+impl M {
+    pub fn new(n_ex: usize, max_tracked: usize) -> Self {
+        // exchange 0: i0 (btc/usdt), i1 (eth/usdt); exchange e>0: i{e+1} (btc/usdt)
+        let mut b = IndexedInstruments::builder();
+        b = b.add_instrument(spot(EXCHANGES[0], "i0", "I0", "btc", "usdt"));
+        b = b.add_instrument(spot(EXCHANGES[0], "i1", "I1", "eth", "usdt"));
+        for e in 1..n_ex {
+            b = b.add_instrument(spot(EXCHANGES[e], &format!("i{}", e + 1), &format!("I{}", e + 1), "btc", "usdt"));
+        }
+        let instruments = b.build();
+        // sanity of the layout the alphabet relies on
+        for (i, ins) in instruments.instruments().iter().enumerate() {
+            let want_ex = if i <= 1 { 0 } else { i - 1 };
+            assert_eq!(ins.value.exchange.key.index(), want_ex, "instrument layout");
+        }
+        let home = (0..n_ex).map(|e| e + 1).collect();
+        Self { n_ex, instruments, home, fill_ins: vec![0, 2], max_tracked, cov: Cov::default() }
+    }
+
+    fn ex_of_ins(&self, ins: usize) -> usize {
+        if ins <= 1 { 0 } else { ins - 1 }
+    }
+    fn exchange_id(&self, ex: usize) -> ExchangeId {
+        self.instruments.exchanges()[ex].value
+    }
+
+    fn rc_of(ins: usize, cid: &str, o: &AOrder) -> RC {
+        RC {
+            ex: o.key.exchange.index(),
+            ins,
+            cid: cid.to_string(),
+            id: o.state.open_meta().map(|m| m.id.0.to_string()),
+        }
+    }
+
+    /// the real engine event for an alphabet symbol (order snapshots copy the tracked order's fields)
+    fn event(&self, ev: &Ev, es: &EState) -> Event {
+        match ev {
+            Ev::Market(i) => EngineEvent::Market(MarketStreamEvent::Item(MarketEvent {
+                time_exchange: t_plus(1),
+                time_received: t_plus(1),
+                exchange: self.exchange_id(self.ex_of_ins(*i)),
+                instrument: InstrumentIndex(*i),
+                kind: DataKind::Trade(PublicTrade { id: "1".into(), price: 100.0, amount: 1.0, side: Side::Buy }),
+            })),
+            Ev::Fill(i) => EngineEvent::Account(AccountStreamEvent::Item(AccountEvent {
+                exchange: ExchangeIndex(self.ex_of_ins(*i)),
+                kind: AccountEventKind::Trade(Trade {
+                    id: TradeId::new("t1"),
+                    order_id: OrderId::new("ox"),
+                    instrument: InstrumentIndex(*i),
+                    strategy: strategy_id(),
+                    time_exchange: t_plus(1),
+                    side: if *i == 0 { Side::Buy } else { Side::Sell },
+                    price: Decimal::from(100),
+                    quantity: Decimal::from(2),
+                    fees: AssetFees::quote_fees(Decimal::ZERO),
+                }),
+            })),
+            Ev::SnapOpen(rc) | Ev::SnapCancelled(rc) => {
+                let held = order_of(es, rc.ins, &rc.cid);
+                let (side, price, quantity, kind, tif) = held
+                    .map(|o| (o.side, o.price, o.quantity, o.kind, o.time_in_force))
+                    .unwrap_or((Side::Buy, Decimal::from(100), Decimal::ONE, OrderKind::Limit, TimeInForce::GoodUntilCancelled { post_only: false }));
+                let id = OrderId::new(format!("x-{}", rc.cid));
+                let state = if matches!(ev, Ev::SnapOpen(_)) {
+                    OrderState::active(Open { id, time_exchange: t_plus(1), filled_quantity: Decimal::ZERO })
+                } else {
+                    OrderState::inactive(Cancelled { id, time_exchange: t_plus(2) })
+                };
+                EngineEvent::Account(AccountStreamEvent::Item(AccountEvent {
+                    exchange: ExchangeIndex(rc.ex),
+                    kind: AccountEventKind::OrderSnapshot(Snapshot(Order {
+                        key: OrderKey {
+                            exchange: ExchangeIndex(rc.ex),
+                            instrument: InstrumentIndex(rc.ins),
+                            strategy: strategy_id(),
+                            cid: ClientOrderId::new(rc.cid.as_str()),
+                        },
+                        side,
+                        price,
+                        quantity,
+                        kind,
+                        time_in_force: tif,
+                        state,
+                    })),
+                }))
+            }
+            Ev::Trading(b) => EngineEvent::TradingStateUpdate(if *b { TradingState::Enabled } else { TradingState::Disabled }),
+            Ev::CmdOpen(rs) => EngineEvent::Command(Command::SendOpenRequests(OneOrMany::from_iter(rs.iter().map(open_req)))),
+            Ev::CmdCancel(rs) => EngineEvent::Command(Command::SendCancelRequests(OneOrMany::from_iter(rs.iter().map(cancel_req)))),
+            Ev::CmdClose(f) => EngineEvent::Command(Command::ClosePositions(self.filter(f))),
+            Ev::CmdCancelOrders(f) => EngineEvent::Command(Command::CancelOrders(self.filter(f))),
+            Ev::Shutdown => EngineEvent::Shutdown(Shutdown),
+        }
+    }
+    fn filter(&self, f: &Filt) -> InstrumentFilter {
+        match f {
+            Filt::All => InstrumentFilter::None,
+            Filt::Ex(e) => InstrumentFilter::Exchanges(OneOrMany::One(ExchangeIndex(*e))),
+            Filt::Ins(i) => InstrumentFilter::Instruments(OneOrMany::One(InstrumentIndex(*i))),
+        }
+    }
+    fn filt_matches(&self, f: &Filt, ins: usize) -> bool {
+        match f {
+            Filt::All => true,
+            Filt::Ex(e) => self.ex_of_ins(ins) == *e,
+            Filt::Ins(i) => ins == *i,
+        }
+    }
+
+    /// strategy menu: (opens, cancels). `full == false` gives the reduced menu used where the strategy
+    /// output is secondary (commands, disabled ticks).
+    fn menus(&self, targets: &[RC], free: &[String], room: usize, full: bool) -> Vec<(Vec<RO>, Vec<RC>)> {
+        let mut v: Vec<(Vec<RO>, Vec<RC>)> = vec![(vec![], vec![])];
+        let can1 = room >= 1 && !free.is_empty();
+        let can2 = room >= 2 && free.len() >= 2;
+        let o = |ex: usize, ins: usize, k: usize| RO { ex, ins, cid: free[k].clone() };
+        // (a command of the same tick uses the untracked id "zz": identical requests from two issuers
+        // would be indistinguishable in the link logs)
+        let untracked = RC { ex: 0, ins: 0, cid: "zs".into(), id: None };
+        if !full {
+            if can1 {
+                v.push((vec![o(self.n_ex - 1, self.home[self.n_ex - 1], 0)], vec![untracked.clone()]));
+                if let Some(t) = targets.first() {
+                    v.push((vec![o((t.ex + 1) % self.n_ex, self.home[(t.ex + 1) % self.n_ex], 0)], vec![t.clone()]));
+                }
+            } else if let Some(t) = targets.first() {
+                v.push((vec![], vec![t.clone()]));
+            } else {
+                v.push((vec![], vec![untracked]));
+            }
+            return v;
+        }
+        if can1 {
+            for e in 0..self.n_ex {
+                v.push((vec![o(e, self.home[e], 0)], vec![]));
+            }
+            v.push((vec![o(self.n_ex, 0, 0)], vec![])); // exchange index out of range
+            v.push((vec![o(1, 0, 0)], vec![])); // exchange named in the request != instrument's home exchange
+        }
+        if can2 {
+            v.push((vec![o(0, self.home[0], 0), o(1, self.home[1], 1)], vec![]));
+        }
+        for t in targets {
+            v.push((vec![], vec![t.clone()]));
+        }
+        v.push((vec![], vec![untracked]));
+        if can1 {
+            if let Some(t) = targets.first() {
+                let e = (t.ex + 1) % self.n_ex;
+                v.push((vec![o(e, self.home[e], 0)], vec![t.clone()]));
+            }
+        }
+        v
+    }
+
+    /// all link-mode vectors that differ on the `addressed` exchanges (others healthy)
+    fn link_vectors(&self, addressed: &BTreeSet<usize>) -> Vec<Vec<Option<TxMode>>> {
+        let mut out = vec![vec![Some(TxMode::Healthy); self.n_ex]];
+        for &e in addressed.iter().filter(|e| **e < self.n_ex) {
+            let mut next = Vec::with_capacity(out.len() * 4);
+            for v in &out {
+                for m in MODES {
+                    let mut w = v.clone();
+                    w[e] = m;
+                    next.push(w);
+                }
+            }
+            out = next;
+        }
+        out
+    }
+}
+
+fn risk_variants(opens: &[RO], cancels: &[RC]) -> Vec<(bool, bool)> {
+    let mut v = vec![(false, false)];
+    if !opens.is_empty() {
+        v.push((true, false));
+    }
+    if !cancels.is_empty() {
+        v.push((false, true));
+    }
+    if !opens.is_empty() && !cancels.is_empty() {
+        v.push((true, true));
+    }
+    v
+}
+
+impl M {
+    fn gen_actions(&self, es: &EState) -> Vec<Act> {
+        let enabled = es.trading == TradingState::Enabled;
+        let tr = tracked(es);
+        let pool_tracked = tr.iter().filter(|t| POOL.contains(&t.1.as_str())).count();
+        let room = self.max_tracked.saturating_sub(pool_tracked);
+        let free: Vec<String> =
+            POOL.iter().filter(|c| !tr.iter().any(|t| t.1 == **c)).map(|c| c.to_string()).collect();
+        // cancel / snapshot targets: first and last tracked order
+        let mut targets: Vec<RC> = Vec::new();
+        if let Some(t) = tr.first() {
+            targets.push(M::rc_of(t.0, &t.1, &t.2));
+        }
+        if tr.len() >= 2 {
+            let t = tr.last().unwrap();
+            targets.push(M::rc_of(t.0, &t.1, &t.2));
+        }
+
+        // ---- events: (symbol, number of fresh cids it consumes, exchanges its own requests address)
+        let all_ex: BTreeSet<usize> = (0..self.n_ex).collect();
+        let mut events: Vec<(Ev, usize, BTreeSet<usize>)> = Vec::new();
+        for i in [0usize, 2] {
+            events.push((Ev::Market(i), 0, BTreeSet::new()));
+        }
+        for &i in &self.fill_ins {
+            if es.instruments.0.get_index(i).map(|(_, s)| s.position.current.is_none()).unwrap_or(false) {
+                events.push((Ev::Fill(i), 0, BTreeSet::new()));
+            }
+        }
+        // (an order naming an unknown exchange can only be tracked by a defective engine; no snapshot for it)
+        for t in targets.iter().filter(|t| t.ex < self.n_ex) {
+            events.push((Ev::SnapOpen(t.clone()), 0, BTreeSet::new()));
+            events.push((Ev::SnapCancelled(t.clone()), 0, BTreeSet::new()));
+        }
+        events.push((Ev::Trading(true), 0, BTreeSet::new()));
+        events.push((Ev::Trading(false), 0, BTreeSet::new()));
+        if room >= 1 && !free.is_empty() {
+            let o = |ex: usize, ins: usize, k: usize| RO { ex, ins, cid: free[k].clone() };
+            for e in 0..self.n_ex {
+                events.push((Ev::CmdOpen(vec![o(e, self.home[e], 0)]), 1, [e].into()));
+            }
+            events.push((Ev::CmdOpen(vec![o(self.n_ex, 0, 0)]), 1, BTreeSet::new()));
+            events.push((Ev::CmdOpen(vec![o(1, 0, 0)]), 1, [1].into()));
+            if room >= 2 && free.len() >= 2 {
+                events.push((Ev::CmdOpen(vec![o(0, self.home[0], 0), o(1, self.home[1], 1)]), 2, [0, 1].into()));
+            }
+        }
+        for t in &targets {
+            events.push((Ev::CmdCancel(vec![t.clone()]), 0, [t.ex].into()));
+        }
+        if targets.len() == 2 {
+            events.push((Ev::CmdCancel(targets.clone()), 0, targets.iter().map(|t| t.ex).collect()));
+        }
+        events.push((Ev::CmdCancel(vec![RC { ex: 0, ins: 0, cid: "zz".into(), id: None }]), 0, [0].into()));
+        events.push((Ev::CmdClose(Filt::All), 0, all_ex.clone()));
+        events.push((Ev::CmdClose(Filt::Ex(1)), 0, all_ex.clone()));
+        events.push((Ev::CmdCancelOrders(Filt::All), 0, all_ex.clone()));
+        events.push((Ev::CmdCancelOrders(Filt::Ins(0)), 0, all_ex.clone()));
+        events.push((Ev::Shutdown, 0, BTreeSet::new()));
+
+        let mut acts = Vec::new();
+        for (ev, used, ev_addr) in events {
+            let is_cmd = matches!(ev, Ev::CmdOpen(_) | Ev::CmdCancel(_) | Ev::CmdClose(_) | Ev::CmdCancelOrders(_));
+            let enabled_after = match ev {
+                Ev::Trading(b) => b,
+                _ => enabled,
+            };
+            // full strategy menu where generation is the subject of the tick
+            let full = enabled_after && !is_cmd && !matches!(ev, Ev::Shutdown);
+            let free_s = &free[used.min(free.len())..];
+            let room_s = room.saturating_sub(used);
+            // next to a command the strategy does not cancel tracked orders: the command may issue the
+            // identical cancel and the two would be indistinguishable in the link logs
+            let tg: &[RC] = if is_cmd { &[] } else { &targets };
+            for (opens, cancels) in self.menus(tg, free_s, room_s, full) {
+                let risks = if full { risk_variants(&opens, &cancels) } else { vec![(false, false)] };
+                for (ro, rc) in risks {
+                    let mut addr = ev_addr.clone();
+                    if enabled_after || enabled {
+                        if !ro {
+                            addr.extend(opens.iter().map(|o| o.ex));
+                        }
+                        if !rc {
+                            addr.extend(cancels.iter().map(|c| c.ex));
+                        }
+                    }
+                    for links in self.link_vectors(&addr) {
+                        acts.push(Act {
+                            ev: Some(ev.clone()),
+                            opens: opens.clone(),
+                            cancels: cancels.clone(),
+                            refuse_opens: ro,
+                            refuse_cancels: rc,
+                            links,
+                        });
+                    }
+                }
+            }
+        }
+        // ---- direct calls of generate_algo_orders() (complete return value), only where the engine
+        // itself would call it
+        if enabled {
+            for (opens, cancels) in self.menus(&targets, &free, room, true) {
+                if opens.is_empty() && cancels.is_empty() {
+                    continue;
+                }
+                for (ro, rc) in risk_variants(&opens, &cancels) {
+                    let mut addr = BTreeSet::new();
+                    if !ro {
+                        addr.extend(opens.iter().map(|o| o.ex));
+                    }
+                    if !rc {
+                        addr.extend(cancels.iter().map(|c| c.ex));
+                    }
+                    for links in self.link_vectors(&addr) {
+                        acts.push(Act {
+                            ev: None,
+                            opens: opens.clone(),
+                            cancels: cancels.clone(),
+                            refuse_opens: ro,
+                            refuse_cancels: rc,
+                            links,
+                        });
+                    }
+                }
+            }
+        }
+        acts
+    }
+}
+
+// ------------------------------------------------------------------------------------------------
+// Observations and oracle
+// ------------------------------------------------------------------------------------------------
+
+#[derive(Clone, Copy, PartialEq, Eq, Debug)]
+enum Src {
+    Cmd,
+    Algo,
+}
+impl Src {
+    fn s(&self) -> &'static str {
+        match self {
+            Src::Cmd => "command",
+            Src::Algo => "algo",
+        }
+    }
+}
+
+/// What the engine CLAIMS it did (audit outputs / direct return value).
+#[derive(Default)]
+struct Reports {
+    sent: Vec<(Src, ExecutionRequest)>,
+    /// (source, request, error is unrecoverable)
+    failed: Vec<(Src, ExecutionRequest, bool)>,
+    refused: Vec<ExecutionRequest>,
+    algo_output: bool,
+    cmd_output: Option<&'static str>,
+    audit_errors: usize,
+}
+impl Reports {
+    fn add_opens(&mut self, src: Src, o: &SendRequestsOutput<RequestOpen>) {
+        for r in o.sent.iter() {
+            self.sent.push((src, ExecutionRequest::Open(r.clone())));
+        }
+        for (r, e) in o.errors.iter() {
+            self.failed.push((src, ExecutionRequest::Open(r.clone()), matches!(e, EngineError::Unrecoverable(_))));
+        }
+    }
+    fn add_cancels(&mut self, src: Src, o: &SendRequestsOutput<RequestCancel>) {
+        for r in o.sent.iter() {
+            self.sent.push((src, ExecutionRequest::Cancel(r.clone())));
+        }
+        for (r, e) in o.errors.iter() {
+            self.failed.push((src, ExecutionRequest::Cancel(r.clone()), matches!(e, EngineError::Unrecoverable(_))));
+        }
+    }
+    fn add_algo(&mut self, src: Src, g: &GenerateAlgoOrdersOutput) {
+        self.add_cancels(src, &g.cancels_and_opens.cancels);
+        self.add_opens(src, &g.cancels_and_opens.opens);
+        for r in g.cancels_refused.iter() {
+            self.refused.push(ExecutionRequest::Cancel(r.item.clone()));
+        }
+        for r in g.opens_refused.iter() {
+            self.refused.push(ExecutionRequest::Open(r.item.clone()));
+        }
+    }
+    fn add_action(&mut self, ao: &ActionOutput) {
+        match ao {
+            ActionOutput::GenerateAlgoOrders(g) => {
+                self.cmd_output = Some("GenerateAlgoOrders");
+                self.add_algo(Src::Cmd, g)
+            }
+            ActionOutput::CancelOrders(o) => {
+                self.cmd_output = Some("CancelOrders");
+                self.add_cancels(Src::Cmd, o)
+            }
+            ActionOutput::OpenOrders(o) => {
+                self.cmd_output = Some("OpenOrders");
+                self.add_opens(Src::Cmd, o)
+            }
+            ActionOutput::ClosePositions(o) => {
+                self.cmd_output = Some("ClosePositions");
+                self.add_cancels(Src::Cmd, &o.cancels);
+                self.add_opens(Src::Cmd, &o.opens)
+            }
+        }
+    }
+}
+
+#[derive(Clone, Copy, PartialEq, Eq, Debug)]
+enum LinkKind {
+    Healthy,
+    Gone,
+    Absent,
+    OutOfRange,
+    Unhealthy,
+}
+impl LinkKind {
+    fn s(&self) -> &'static str {
+        match self {
+            LinkKind::Healthy => "healthy-link",
+            LinkKind::Gone => "closed-link",
+            LinkKind::Absent => "no-link-for-exchange",
+            LinkKind::OutOfRange => "exchange-index-out-of-range",
+            LinkKind::Unhealthy => "unhealthy-link",
+        }
+    }
+    /// the statement: fatal if the link is gone or the exchange has no link
+    fn fatal(&self) -> bool {
+        matches!(self, LinkKind::Gone | LinkKind::Absent | LinkKind::OutOfRange)
+    }
+}
+fn link_kind(links: &[Option<TxMode>], ex: usize) -> LinkKind {
+    match links.get(ex) {
+        None => LinkKind::OutOfRange,
+        Some(None) => LinkKind::Absent,
+        Some(Some(TxMode::Healthy)) => LinkKind::Healthy,
+        Some(Some(TxMode::Closed)) => LinkKind::Gone,
+        Some(Some(TxMode::Unhealthy)) => LinkKind::Unhealthy,
+    }
+}
+
+fn state_name(o: Option<&AOrder>) -> &'static str {
+    match o.map(|o| &o.state) {
+        None => "untracked",
+        Some(ActiveOrderState::OpenInFlight(_)) => "open-in-flight",
+        Some(ActiveOrderState::Open(_)) => "open",
+        Some(ActiveOrderState::CancelInFlight(_)) => "cancel-in-flight",
+    }
+}
+fn kind_name(r: &ExecutionRequest) -> &'static str {
+    match r {
+        ExecutionRequest::Open(_) => "open",
+        ExecutionRequest::Cancel(_) => "cancel",
+        ExecutionRequest::Shutdown => "shutdown",
+    }
+}
+
+/// What actually happened: link logs and engine state before / after.
+struct Obs<'a> {
+    pre: &'a EState,
+    post: &'a EState,
+    logs: Vec<Vec<ExecutionRequest>>,
+    links: &'a [Option<TxMode>],
+    /// cids the input event itself addresses (order snapshots)
+    touched: Vec<String>,
+}
+impl Obs<'_> {
+    fn n_right(&self, r: &ExecutionRequest) -> usize {
+        let ex = parts(r).1;
+        self.logs.get(ex).map(|l| l.iter().filter(|x| *x == r).count()).unwrap_or(0)
+    }
+    fn n_total(&self, r: &ExecutionRequest) -> usize {
+        self.logs.iter().map(|l| l.iter().filter(|x| *x == r).count()).sum()
+    }
+    /// Some(description) if `r` (which must not have been delivered) left a mark on any instrument
+    fn marked(&self, r: &ExecutionRequest, rep: &Reports) -> Option<String> {
+        let (is_open, _, _, cid) = parts(r);
+        if self.touched.contains(&cid) {
+            return None;
+        }
+        // the same order legitimately opened / cancelled by another (sent) request of this tick
+        if rep.sent.iter().any(|(_, s)| parts(s).0 == is_open && parts(s).3 == cid) {
+            return None;
+        }
+        for i in 0..self.pre.instruments.0.len() {
+            let (a, b) = (order_of(self.pre, i, &cid), order_of(self.post, i, &cid));
+            if a != b {
+                return Some(format!("order {cid} on instrument {i}: {} -> {}", state_name(a), state_name(b)));
+            }
+        }
+        None
+    }
+    /// Frame rule ("... and no other order changed"): an order whose cid is addressed neither by the input
+    /// event nor by any request proposed, commanded, reported or delivered in this tick is unchanged.
+    fn frame(&self, rep: &Reports, extra: &[ExecutionRequest], out: &mut Vec<Viol>) {
+        let mut addressed: Vec<String> = self.touched.clone();
+        addressed.extend(extra.iter().map(|r| parts(r).3));
+        addressed.extend(rep.sent.iter().map(|(_, r)| parts(r).3));
+        addressed.extend(rep.failed.iter().map(|(_, r, _)| parts(r).3));
+        addressed.extend(rep.refused.iter().map(|r| parts(r).3));
+        addressed.extend(self.logs.iter().flatten().map(|r| parts(r).3));
+        let mut keys: Vec<(usize, String)> = tracked(self.pre).into_iter().map(|t| (t.0, t.1)).collect();
+        keys.extend(tracked(self.post).into_iter().map(|t| (t.0, t.1)));
+        keys.sort();
+        keys.dedup();
+        for (i, cid) in keys {
+            if addressed.contains(&cid) {
+                continue;
+            }
+            let (a, b) = (order_of(self.pre, i, &cid), order_of(self.post, i, &cid));
+            if a != b {
+                out.push(("C03/frame/unaddressed-order-changed".into(), format!("order {cid} on instrument {i} was addressed by nothing in this tick but changed {} -> {}", state_name(a), state_name(b))));
+                return;
+            }
+        }
+    }
+    /// Some(description) if `r` is NOT shown as in flight although it should be
+    fn not_in_flight(&self, r: &ExecutionRequest) -> Option<String> {
+        let (is_open, _, ins, cid) = parts(r);
+        let post = order_of(self.post, ins, &cid);
+        if is_open {
+            match post.map(|o| &o.state) {
+                Some(ActiveOrderState::OpenInFlight(_)) => None,
+                _ => Some(format!("opened order {cid} on instrument {ins} is {}", state_name(post))),
+            }
+        } else {
+            // only "the tracked order it cancels": tracked before and not addressed by the input event
+            if order_of(self.pre, ins, &cid).is_none() || self.touched.contains(&cid) {
+                return None;
+            }
+            match post.map(|o| &o.state) {
+                Some(ActiveOrderState::CancelInFlight(_)) => None,
+                _ => Some(format!("cancelled order {cid} on instrument {ins} is {}", state_name(post))),
+            }
+        }
+    }
+}
+
+/// Report-driven rules R1-R4: whatever the engine claims must be what happened.
+/// Returns the cids of the requests it flagged (the input-driven rules skip those: one defect, one signature).
+fn check_reports(obs: &Obs, rep: &Reports, has_audit: bool, out: &mut Vec<Viol>) -> Vec<String> {
+    let n0 = out.len();
+    let mut flagged = Vec::new();
+    let mark = |out: &Vec<Viol>, n: usize, r: &ExecutionRequest, flagged: &mut Vec<String>| {
+        if out.len() > n {
+            flagged.push(parts(r).3);
+        }
+    };
+    for (src, r) in &rep.sent {
+        let n = out.len();
+        let k = kind_name(r);
+        let claimed = rep.sent.iter().filter(|(_, x)| x == r).count();
+        let (nr, nt) = (obs.n_right(r), obs.n_total(r));
+        let lk = link_kind(obs.links, parts(r).1);
+        // the send path is shared by opens / cancels and by commands / algo orders: cause only
+        let cause = if nr == claimed && nt == nr {
+            None
+        } else if nr < claimed {
+            Some(if nt > nr { "delivered-to-wrong-link" } else { "not-delivered" })
+        } else if nr > claimed {
+            Some("delivered-more-than-once")
+        } else {
+            Some("also-delivered-to-other-link")
+        };
+        if let Some(cause) = cause {
+            out.push((
+                format!("C03/sent-delivered-once/{cause}"),
+                format!("{} reported sent {claimed}x: {r:?}; log of link {} ({}) holds it {nr}x, all links {nt}x", src.s(), parts(r).1, lk.s()),
+            ));
+        }
+        if let Some(d) = obs.not_in_flight(r) {
+            out.push((format!("C03/sent-then-in-flight/{}-{k}", src.s()), format!("reported sent: {r:?}; after the tick {d}")));
+        }
+        mark(out, n, r, &mut flagged);
+    }
+    for (src, r, fatal) in &rep.failed {
+        let n = out.len();
+        let k = kind_name(r);
+        let lk = link_kind(obs.links, parts(r).1);
+        if lk == LinkKind::Healthy {
+            out.push(("C03/failed-report/link-was-healthy".into(), format!("{} reported failed although its link is healthy: {r:?}", src.s())));
+        } else if lk.fatal() != *fatal {
+            out.push((
+                format!("C03/failed-error-class/{}/reported-{}", lk.s(), if *fatal { "fatal" } else { "recoverable" }),
+                format!("request {r:?} failed on {}: error reported as {}", lk.s(), if *fatal { "unrecoverable" } else { "recoverable" }),
+            ));
+        }
+        if obs.n_total(r) > 0 {
+            out.push(("C03/failed-not-delivered".into(), format!("{} reported failed but found in a link log: {r:?}", src.s())));
+        }
+        if let Some(d) = obs.marked(r, rep) {
+            out.push((format!("C03/failed-no-in-flight-mark/{}-{k}", src.s()), format!("reported failed ({}): {r:?}; yet {d}", lk.s())));
+        }
+        if *fatal && has_audit && rep.audit_errors == 0 {
+            out.push(("C03/fatal-failure/tick-not-terminal".into(), format!("unrecoverable failure of {r:?} but the audit carries no error")));
+        }
+        mark(out, n, r, &mut flagged);
+    }
+    for r in &rep.refused {
+        let n = out.len();
+        let k = kind_name(r);
+        if obs.n_total(r) > 0 {
+            out.push((format!("C03/refused-never-delivered/{k}"), format!("reported refused but found in a link log: {r:?}")));
+        }
+        if let Some(d) = obs.marked(r, rep) {
+            out.push((format!("C03/refused-no-in-flight-mark/{k}"), format!("reported refused: {r:?}; yet {d}")));
+        }
+        mark(out, n, r, &mut flagged);
+    }
+    let _ = n0;
+    flagged
+}
+
+/// Expectation for one request that MUST have been issued (approved strategy request on a generating
+/// tick, or a request of a SendOpen/SendCancel command): healthy link => delivered once, in flight,
+/// reported sent; faulty link => nowhere delivered, no mark, reported failed. Requests already flagged
+/// by the report-driven rules are skipped.
+fn check_issued(obs: &Obs, rep: &Reports, flagged: &[String], src: Src, r: &ExecutionRequest, rule: &str, output_present: bool, out: &mut Vec<Viol>) {
+    if flagged.contains(&parts(r).3) {
+        return;
+    }
+    let k = kind_name(r);
+    let lk = link_kind(obs.links, parts(r).1);
+    let (nr, nt) = (obs.n_right(r), obs.n_total(r));
+    if lk == LinkKind::Healthy {
+        // a command and the strategy may issue the identical cancel in one tick: then it is reported
+        // (and, by R1, delivered) once per issuer
+        let want = rep.sent.iter().filter(|(_, x)| x == r).count().max(1);
+        if nr != want || nt != want {
+            out.push((format!("{rule}/not-delivered-once"), format!("{r:?} must be issued on a healthy link: named link holds it {nr}x, all links {nt}x (expected {want}x)")));
+        } else if let Some(d) = obs.not_in_flight(r) {
+            out.push((format!("{rule}/{k}-not-in-flight"), format!("{r:?} issued but {d}")));
+        } else if output_present && !rep.sent.iter().any(|(s, x)| *s == src && x == r) {
+            out.push((format!("{rule}/not-reported-sent"), format!("{r:?} issued but missing from the reported `sent`")));
+        }
+    } else if nt > 0 {
+        out.push((format!("{rule}/delivered-despite-link-fault"), format!("{r:?} addresses {} but was found in a link log", lk.s())));
+    } else if let Some(d) = obs.marked(r, rep) {
+        out.push((format!("C03/failed-no-in-flight-mark/{}-{k}", src.s()), format!("{r:?} cannot be delivered ({}), yet {d}", lk.s())));
+    } else if output_present && !rep.failed.iter().any(|(s, x, _)| *s == src && x == r) {
+        out.push((format!("{rule}/failure-not-reported"), format!("{r:?} cannot be delivered ({}) but is missing from the reported errors", lk.s())));
+    }
+}
+
+// ------------------------------------------------------------------------------------------------
+// Transition = one real Engine::process (or one direct generate_algo_orders) + oracle
+// ------------------------------------------------------------------------------------------------
+
+fn ev_kind(ev: &Ev) -> &'static str {
+    match ev {
+        Ev::Market(_) => "market",
+        Ev::Fill(_) => "account-fill",
+        Ev::SnapOpen(_) | Ev::SnapCancelled(_) => "account-order-snapshot",
+        Ev::Trading(true) => "trading-enabled",
+        Ev::Trading(false) => "trading-disabled",
+        Ev::CmdOpen(_) => "send-open-requests",
+        Ev::CmdCancel(_) => "send-cancel-requests",
+        Ev::CmdClose(_) => "close-positions",
+        Ev::CmdCancelOrders(_) => "cancel-orders",
+        Ev::Shutdown => "shutdown",
+    }
+}
+
+impl M {
+    fn strategy_for(&self, a: &Act) -> (ScriptStrategy, ScriptRisk) {
+        let strategy = ScriptStrategy {
+            opens: a.opens.iter().map(open_req).collect(),
+            cancels: a.cancels.iter().map(cancel_req).collect(),
+            ..Default::default()
+        };
+        (strategy, ScriptRisk { refuse_opens: a.refuse_opens, refuse_cancels: a.refuse_cancels })
+    }
+
+    fn logs(txs: &[Option<ScriptTx>]) -> Vec<Vec<ExecutionRequest>> {
+        txs.iter().map(|t| t.as_ref().map(|t| t.take()).unwrap_or_default()).collect()
+    }
+
+    fn step_direct(&self, pre: &EState, a: &Act, out: &mut Vec<Viol>) {
+        let (strategy, risk) = self.strategy_for(a);
+        let (mut engine, txs) = mk_engine(&self.instruments, pre.clone(), &a.links, strategy, risk);
+        bump(&self.cov.direct_calls);
+        let res = catch_unwind(AssertUnwindSafe(|| {
+            GenerateAlgoOrders::<ExchangeIndex, InstrumentIndex>::generate_algo_orders(&mut engine)
+        }));
+        let Ok(output) = res else {
+            out.push(("C03/panic/generate-algo-orders".into(), "generate_algo_orders() panicked".into()));
+            return;
+        };
+        let mut rep = Reports { algo_output: true, ..Default::default() };
+        rep.add_algo(Src::Algo, &output);
+        let obs = Obs { pre, post: &engine.state, logs: M::logs(&txs), links: &a.links, touched: vec![] };
+        self.count(&rep);
+        let flagged = check_reports(&obs, &rep, false, out);
+        obs.frame(&rep, &self.proposals(a).into_iter().map(|p| p.0).collect::<Vec<_>>(), out);
+        // the return value is complete: every proposed request is classified exactly
+        for (r, refused) in self.proposals(a) {
+            if refused {
+                self.check_refused(&obs, &rep, &r, true, out);
+            } else {
+                check_issued(&obs, &rep, &flagged, Src::Algo, &r, "C03/enabled-generates/direct-call", true, out);
+            }
+        }
+    }
+
+    /// strategy proposals of the tick as execution requests + whether the scripted risk manager refuses them
+    fn proposals(&self, a: &Act) -> Vec<(ExecutionRequest, bool)> {
+        let mut v: Vec<(ExecutionRequest, bool)> = Vec::new();
+        for c in &a.cancels {
+            v.push((ExecutionRequest::Cancel(cancel_req(c)), a.refuse_cancels));
+        }
+        for o in &a.opens {
+            v.push((ExecutionRequest::Open(open_req(o)), a.refuse_opens));
+        }
+        v
+    }
+
+    fn check_refused(&self, obs: &Obs, rep: &Reports, r: &ExecutionRequest, output_present: bool, out: &mut Vec<Viol>) {
+        let k = kind_name(r);
+        if obs.n_total(r) > 0 {
+            out.push((format!("C03/refused-never-delivered/{k}"), format!("risk manager refused {r:?} but it is in a link log")));
+        }
+        if let Some(d) = obs.marked(r, rep) {
+            out.push((format!("C03/refused-no-in-flight-mark/{k}"), format!("risk manager refused {r:?}; yet {d}")));
+        }
+        if output_present && !rep.refused.iter().any(|x| x == r) {
+            out.push((format!("C03/refused-reported/{k}-missing-from-refused-list"), format!("risk manager refused {r:?} but the output does not list it as refused")));
+        }
+    }
+
+    fn count(&self, rep: &Reports) {
+        addn(&self.cov.requests_sent, rep.sent.len());
+        addn(&self.cov.requests_refused, rep.refused.len());
+        addn(&self.cov.requests_failed_fatal, rep.failed.iter().filter(|f| f.2).count());
+        addn(&self.cov.requests_failed_recoverable, rep.failed.iter().filter(|f| !f.2).count());
+        bump(&self.cov.oracle_evaluations);
+    }
+
+    fn step_process(&self, pre: &EState, ev: &Ev, a: &Act, out: &mut Vec<Viol>) -> Option<EState> {
+        let (strategy, risk) = self.strategy_for(a);
+        let (mut engine, txs) = mk_engine(&self.instruments, pre.clone(), &a.links, strategy, risk);
+        let event = self.event(ev, pre);
+        bump(&self.cov.process_calls);
+        let res = catch_unwind(AssertUnwindSafe(|| engine.process(event.clone())));
+        let Ok(audit) = res else {
+            out.push((format!("C03/panic/process-{}", ev_kind(ev)), format!("Engine::process panicked on {ev:?}")));
+            return None;
+        };
+        let post = &engine.state;
+        let pre_enabled = pre.trading == TradingState::Enabled;
+        let post_enabled = post.trading == TradingState::Enabled;
+        let trading = if pre_enabled { "enabled" } else { "disabled" };
+
+        // ---- what the engine claims
+        let mut rep = Reports::default();
+        if let EngineAudit::Process(p) = &audit {
+            rep.audit_errors = p.errors.len();
+            for o in p.outputs.iter() {
+                match o {
+                    EngineOutput::Commanded(ao) => rep.add_action(ao),
+                    EngineOutput::AlgoOrders(g) => {
+                        rep.algo_output = true;
+                        rep.add_algo(Src::Algo, g)
+                    }
+                    _ => {}
+                }
+            }
+        }
+        let touched = match ev {
+            Ev::SnapOpen(rc) | Ev::SnapCancelled(rc) => vec![rc.cid.clone()],
+            _ => vec![],
+        };
+        let obs = Obs { pre, post, logs: M::logs(&txs), links: &a.links, touched };
+        self.count(&rep);
+        if rep.audit_errors > 0 {
+            bump(&self.cov.terminal_ticks);
+        }
+
+        // ---- R1-R4 on everything reported
+        let flagged = check_reports(&obs, &rep, true, out);
+        {
+            let mut extra: Vec<ExecutionRequest> = self.proposals(a).into_iter().map(|p| p.0).collect();
+            match ev {
+                Ev::CmdOpen(rs) => extra.extend(rs.iter().map(|r| ExecutionRequest::Open(open_req(r)))),
+                Ev::CmdCancel(rs) => extra.extend(rs.iter().map(|r| ExecutionRequest::Cancel(cancel_req(r)))),
+                _ => {}
+            }
+            obs.frame(&rep, &extra, out);
+        }
+
+        // ---- trading state itself follows the update (needed to phrase R5/R6)
+        if let Ev::Trading(b) = ev {
+            if post_enabled != *b {
+                out.push(("C03/trading-state/update-not-applied".into(), format!("TradingStateUpdate({b}) left trading enabled={post_enabled}")));
+            }
+        } else if post_enabled != pre_enabled {
+            out.push((format!("C03/trading-state/changed-by-{}", ev_kind(ev)), format!("{ev:?} changed trading enabled {pre_enabled} -> {post_enabled}")));
+        }
+
+        // ---- R5 / R6: is the strategy's proposal to be issued on this tick?
+        let is_cmd = matches!(ev, Ev::CmdOpen(_) | Ev::CmdCancel(_) | Ev::CmdClose(_) | Ev::CmdCancelOrders(_));
+        let enabled_after = match ev {
+            Ev::Trading(b) => *b,
+            _ => pre_enabled,
+        };
+        // Some(true) = must generate, Some(false) = must not, None = statement silent
+        let must_gen: Option<bool> = if !enabled_after {
+            if pre_enabled { None } else { Some(false) }
+        } else if is_cmd || matches!(ev, Ev::Shutdown) {
+            None
+        } else {
+            Some(true)
+        };
+        let proposals = self.proposals(a);
+        let algo_reported = rep.algo_output
+            || rep.sent.iter().any(|(s, _)| *s == Src::Algo)
+            || rep.failed.iter().any(|(s, _, _)| *s == Src::Algo)
+            || !rep.refused.is_empty();
+        match must_gen {
+            Some(false) => {
+                if !proposals.is_empty() {
+                    bump(&self.cov.disabled_ticks_with_strategy_proposal);
+                }
+                // one signature per leaking tick: delivered > marked > merely reported
+                let mut leak: Option<(&str, String)> = None;
+                for (r, _) in &proposals {
+                    // a command of this very tick may legitimately carry the same cancel
+                    let by_cmd = rep.sent.iter().any(|(s, x)| *s == Src::Cmd && x == r);
+                    if obs.n_total(r) > 0 && !by_cmd {
+                        leak = Some(("delivered", format!("strategy proposal {r:?} reached a link")));
+                        break;
+                    }
+                    if leak.is_none() {
+                        if let Some(d) = obs.marked(r, &rep) {
+                            leak = Some(("marked-in-flight", format!("strategy proposal {r:?}: {d}")));
+                        }
+                    }
+                }
+                if leak.is_none() && algo_reported {
+                    leak = Some(("reported", "audit carries algo order output".into()));
+                }
+                if let Some((what, d)) = leak {
+                    out.push((format!("C03/disabled/strategy-request-{what}"), format!("trading disabled, event {ev:?}: {d}")));
+                }
+            }
+            Some(true) => {
+                let enabling = matches!(ev, Ev::Trading(true)) && !pre_enabled;
+                if enabling {
+                    bump(&self.cov.enabling_event_generations);
+                }
+                let rule = if enabling { "C03/enabled-generates/on-the-enabling-event" } else { "C03/enabled-generates/on-enabled-event" };
+                // the audit drops the algo output next to a fatal algo error: then only link logs and state are checked
+                let output_present = rep.algo_output;
+                if !output_present && !proposals.is_empty() && rep.audit_errors > 0 {
+                    bump(&self.cov.audit_dropped_algo_output);
+                }
+                let must_report = output_present || rep.audit_errors == 0;
+                // no trace of generation at all (nothing reported, nothing delivered, no error): one signature
+                let any_trace = algo_reported || rep.audit_errors > 0 || proposals.iter().any(|(r, _)| obs.n_total(r) > 0);
+                if !proposals.is_empty() && !any_trace {
+                    out.push((format!("{rule}/strategy-output-not-issued"), format!("event {ev:?} leaves trading enabled but the strategy's proposal {:?} was neither delivered, reported nor refused", proposals.iter().map(|p| &p.0).collect::<Vec<_>>())));
+                }
+                for (r, refused) in proposals.iter().filter(|_| any_trace) {
+                    if touched_conflict(&obs, r) {
+                        continue;
+                    }
+                    if *refused {
+                        self.check_refused(&obs, &rep, r, must_report, out);
+                    } else {
+                        check_issued(&obs, &rep, &flagged, Src::Algo, r, rule, must_report, out);
+                        if link_kind(&a.links, parts(r).1).fatal() && rep.audit_errors == 0 && !flagged.contains(&parts(r).3) {
+                            out.push(("C03/fatal-failure/tick-not-terminal".into(), format!("{r:?} addressed {} but the audit carries no error", link_kind(&a.links, parts(r).1).s())));
+                        }
+                    }
+                }
+            }
+            None => {
+                // generation optional: refusals must still hold if it ran
+                for (r, refused) in &proposals {
+                    if *refused && !touched_conflict(&obs, r) {
+                        self.check_refused(&obs, &rep, r, false, out);
+                    }
+                }
+            }
+        }
+
+        // ---- commands are actioned whatever the trading state
+        if is_cmd {
+            if !pre_enabled {
+                bump(&self.cov.commands_while_disabled);
+            }
+            let rule = format!("C03/command-actioned/while-{trading}");
+            let want = match ev {
+                Ev::CmdOpen(_) => "OpenOrders",
+                Ev::CmdCancel(_) | Ev::CmdCancelOrders(_) => "CancelOrders",
+                _ => "ClosePositions",
+            };
+            if rep.cmd_output != Some(want) {
+                out.push((format!("{rule}/no-{want}-output"), format!("{ev:?}: audit carries command output {:?}", rep.cmd_output)));
+            }
+            // (a command that left no output at all is reported once, not once per request)
+            match ev {
+                _ if rep.cmd_output != Some(want) => {}
+                Ev::CmdOpen(rs) => {
+                    for r in rs {
+                        check_issued(&obs, &rep, &flagged, Src::Cmd, &ExecutionRequest::Open(open_req(r)), &rule, true, out);
+                    }
+                }
+                Ev::CmdCancel(rs) => {
+                    for r in rs {
+                        check_issued(&obs, &rep, &flagged, Src::Cmd, &ExecutionRequest::Cancel(cancel_req(r)), &rule, true, out);
+                    }
+                }
+                Ev::CmdCancelOrders(f) => {
+                    // every not-yet-cancelling order in scope whose link is healthy gets its cancel (details: C19)
+                    for (ins, cid, o) in tracked(pre) {
+                        let ex = o.key.exchange.index();
+                        let live = !matches!(o.state, ActiveOrderState::CancelInFlight(_));
+                        if live && self.filt_matches(f, ins) && link_kind(&a.links, ex) == LinkKind::Healthy {
+                            let n = obs.logs[ex].iter().filter(|x| matches!(x, ExecutionRequest::Cancel(c) if c.key.cid.0.as_str() == cid && c.key.instrument.index() == ins)).count();
+                            // (the strategy may cancel the same order in the same tick: at least one)
+                            if n < 1 {
+                                out.push((format!("{rule}/cancel-orders-request-missing"), format!("{ev:?}: order {cid} on instrument {ins} got {n} cancel requests on its link")));
+                            }
+                        }
+                    }
+                }
+                Ev::CmdClose(f) => {
+                    for (ins, (_, st)) in pre.instruments.0.iter().enumerate() {
+                        let ex = self.ex_of_ins(ins);
+                        if st.position.current.is_some() && st.data.price().is_some() && self.filt_matches(f, ins) && link_kind(&a.links, ex) == LinkKind::Healthy {
+                            let n = obs.logs[ex].iter().filter(|x| matches!(x, ExecutionRequest::Open(o) if o.key.instrument.index() == ins)).count();
+                            // the strategy may open on the same instrument in the same tick: at least one
+                            if n < 1 {
+                                out.push((format!("{rule}/close-positions-request-missing"), format!("{ev:?}: instrument {ins} holds a position and a price but no open reached its link")));
+                            }
+                        }
+                    }
+                }
+                _ => {}
+            }
+        }
+
+        // ---- R5: state keeps updating while disabled = same update as an enabled engine performs
+        if !pre_enabled && proposals.is_empty() && matches!(ev, Ev::Market(_) | Ev::Fill(_) | Ev::SnapOpen(_) | Ev::SnapCancelled(_)) {
+            bump(&self.cov.disabled_state_updates_checked);
+            let healthy = vec![Some(TxMode::Healthy); self.n_ex];
+            let (mut e2, _t) = mk_engine(&self.instruments, pre.clone(), &healthy, ScriptStrategy::default(), ScriptRisk::default());
+            let _ = e2.process(EngineEvent::TradingStateUpdate(TradingState::Enabled));
+            let _ = e2.process(event.clone());
+            let same = e2.state.instruments == post.instruments && e2.state.assets == post.assets && e2.state.connectivity == post.connectivity;
+            if !same {
+                out.push((format!("C03/disabled-state-still-updates/{}", ev_kind(ev)), format!("{ev:?} processed while disabled leaves a state different from the one an enabled engine (idle strategy) reaches")));
+            }
+            if pre.instruments != post.instruments || pre.connectivity != post.connectivity {
+                bump(&self.cov.disabled_state_updates_changed_state);
+            }
+        }
+
+        // terminal tick (fatal error or shutdown): the engine stops, no successor
+        if rep.audit_errors > 0 || matches!(ev, Ev::Shutdown) {
+            return None;
+        }
+        Some(engine.state)
+    }
+}
+
+/// the strategy proposal cancels an order the input event itself addresses: outcome depends on the
+/// order-lifecycle rules (C01), not demanded here
+fn touched_conflict(obs: &Obs, r: &ExecutionRequest) -> bool {
+    obs.touched.contains(&parts(r).3)
+}
+
+impl Model for M {
+    type State = St;
+    type Action = Act;
+
+    fn init(&self) -> Vec<St> {
+        vec![
+            st_of(fresh_state(&self.instruments, TradingState::Disabled)),
+            st_of(fresh_state(&self.instruments, TradingState::Enabled)),
+        ]
+    }
+    fn actions(&self, s: &St) -> Vec<Act> {
+        self.gen_actions(&s.es)
+    }
+    fn step(&self, s: &St, a: &Act, out: &mut Vec<Viol>) -> Option<St> {
+        match &a.ev {
+            None => {
+                self.step_direct(&s.es, a, out);
+                None
+            }
+            Some(ev) => self.step_process(&s.es, ev, a, out).map(st_of),
+        }
+    }
+    fn impl_hash(&self, s: &St) -> Option<u64> {
+        Some(crate::core::hash_of(&*s.key))
+    }
+}
+
+fn cov_json(c: &Cov) -> Value {
+    let g = |a: &AtomicU64| a.load(Ordering::Relaxed);
+    json!({
+        "process_calls": g(&c.process_calls),
+        "direct_generate_calls": g(&c.direct_calls),
+        "oracle_evaluations": g(&c.oracle_evaluations),
+        "requests_reported_sent": g(&c.requests_sent),
+        "requests_reported_failed_fatal": g(&c.requests_failed_fatal),
+        "requests_reported_failed_recoverable": g(&c.requests_failed_recoverable),
+        "requests_reported_refused": g(&c.requests_refused),
+        "terminal_ticks": g(&c.terminal_ticks),
+        "audit_dropped_algo_output": g(&c.audit_dropped_algo_output),
+        "disabled_ticks_with_strategy_proposal": g(&c.disabled_ticks_with_strategy_proposal),
+        "disabled_state_updates_checked": g(&c.disabled_state_updates_checked),
+        "disabled_state_updates_changed_state": g(&c.disabled_state_updates_changed_state),
+        "enabling_event_generations": g(&c.enabling_event_generations),
+        "commands_while_disabled": g(&c.commands_while_disabled),
+    })
+}
+
+/// (exchanges, bound on tracked pool orders, depth)
+fn configs(ctx: &Ctx) -> Vec<(usize, usize, usize)> {
+    ctx.tier.pick(vec![(2, 2, 4)], vec![(2, 2, 6), (2, 3, 4), (3, 2, 4)])
+}
+
+pub fn run(ctx: &Ctx) -> Outcome {
+    let mut per = Vec::new();
+    let (mut states, mut transitions, mut distinct, mut max_depth) = (0usize, 0u64, 0usize, 0usize);
+    let mut samples = Vec::new();
+    let mut totals: std::collections::BTreeMap<String, u64> = Default::default();
+    for (n_ex, k, depth) in configs(ctx) {
+        let m = M::new(n_ex, k);
+        let label = format!("ex={n_ex},k={k}");
+        let st = bfs::run(ctx, &m, &label, Some(depth), 20_000_000);
+        if st.capped {
+            eprintln!("MACHINERY: C03 BFS hit the state cap before depth {depth}");
+            std::process::exit(2);
+        }
+        states += st.states;
+        transitions += st.transitions;
+        distinct += st.distinct_impl_states;
+        max_depth = max_depth.max(st.depth_completed);
+        let cj = cov_json(&m.cov);
+        if let Value::Object(o) = &cj {
+            for (key, v) in o {
+                *totals.entry(key.clone()).or_insert(0) += v.as_u64().unwrap_or(0);
+            }
+        }
+        per.push(json!({"label": label, "exchanges": n_ex, "max_tracked_pool_orders": k, "depth": depth,
+            "states": st.states, "transitions": st.transitions, "frontier_sizes": st.frontier_sizes,
+            "fixpoint": st.fixpoint, "counters": cj}));
+        samples.extend(st.samples);
+    }
+    // non-vacuity: the interesting branches must have been exercised
+    for key in ["requests_reported_sent", "requests_reported_failed_fatal", "requests_reported_failed_recoverable", "requests_reported_refused",
+        "disabled_ticks_with_strategy_proposal", "enabling_event_generations", "commands_while_disabled", "disabled_state_updates_changed_state"] {
+        if totals.get(key).copied().unwrap_or(0) == 0 {
+            eprintln!("MACHINERY: C03 exploration never exercised `{key}`");
+            std::process::exit(2);
+        }
+    }
+    let mut cov = json!({
+        "states": states,
+        "transitions": transitions,
+        "traces_validated_against_impl": transitions,
+        "distinct_impl_states": distinct,
+        "max_depth": max_depth,
+        "exhaustive": true,
+        "per_configuration": per,
+        "samples": samples,
+        "rule": "BFS over the real EngineState (canonicalised); every transition = one real Engine::process (or direct generate_algo_orders) with strategy output, risk verdict and per-exchange link fault mode chosen by the explorer; oracle R1-R6 on audit + link logs + order state",
+    });
+    if let Value::Object(o) = &mut cov {
+        for (k, v) in totals {
+            o.insert(k, json!(v));
+        }
+    }
+    Outcome {
+        level: "model_checking",
+        coverage: cov,
+        assumptions: vec![
+            "client order ids are unique per order (fresh ids for every open; ClosePositions uses one deterministic id per instrument)".into(),
+            "histories bounded by depth; at most 2 simultaneously tracked strategy/command orders; 2-3 exchanges, 3-4 instruments".into(),
+            "a history ends at the first terminal tick (unrecoverable error or Shutdown)".into(),
+            "the strategy never cancels the order that the same tick's order snapshot addresses (that outcome is C01's subject)".into(),
+            "whether algo generation runs after a command / Shutdown / on the disabling event is not demanded (statement silent)".into(),
+            "an error on a present-but-unhealthy link (recoverable send error) is required to be reported as recoverable (design reading of 'fatal if the link is gone or the exchange has no link')".into(),
+        ],
+    }
+}
+
+pub fn replay(ctx: &Ctx, case: &Value) {
+    let label = case["label"].as_str().unwrap_or("ex=2,k=2");
+    let mut n_ex = 2;
+    let mut k = 2;
+    for p in label.split(',') {
+        if let Some(v) = p.strip_prefix("ex=") {
+            n_ex = v.parse().unwrap_or(2);
+        }
+        if let Some(v) = p.strip_prefix("k=") {
+            k = v.parse().unwrap_or(2);
+        }
+    }
+    let m = M::new(n_ex, k);
+    for (sig, detail) in bfs::replay(&m, case) {
+        ctx.violate(sig, detail, case.clone());
+    }
 }
